@@ -197,13 +197,45 @@ def one_run(rec, lib, rnd, d, dir_mode, st, inproc):
     # bystander files that must not be touched or consumed
     with open(os.path.join(d, "notes.txt"), "w") as f:
         f.write("not a stylesheet\n")
+    linked = {}
+    if dir_mode and rnd.random() < 0.5:
+        # one of the directory's entries is a symbolic link to a stylesheet kept elsewhere (outside the directory given when
+        # the run is started from the parent): its result belongs beside the *entry*, under the entry's name
+        lrel = os.path.join(prefix, "css", rnd.choice(["theme.css", "a-link.css", "zz-link.css"]))
+        real = os.path.join("shared-assets", "palette.css")
+        lsheet = SS.make_sheet(rnd, premium=st["premium"], default_bg=dbg, rich=True, tag="lnk")
+        os.makedirs(os.path.join(d, "shared-assets"), exist_ok=True)
+        with open(os.path.join(d, real), "w", encoding="utf-8", newline="") as f:
+            f.write(lsheet.text)
+        os.makedirs(os.path.dirname(os.path.join(d, lrel)), exist_ok=True)
+        os.symlink(os.path.relpath(os.path.join(d, real), os.path.dirname(os.path.join(d, lrel))), os.path.join(d, lrel))
+        files[lrel] = lsheet
+        if not prefix:
+            files[real] = lsheet          # the target lies inside the directory given: it is an input in its own right
+        linked = {lrel: real}
+        rec.count("dir_runs_with_a_linked_entry")
+    legacy = None
+    if dir_mode and rnd.random() < 0.6:
+        # a stylesheet in a legacy encoding, declared by @charset: whether the tool reads it properly or reports and skips it,
+        # it must not write an output whose comments and strings differ from the input's
+        base_sheet = SS.make_sheet(rnd, premium=st["premium"], default_bg=dbg, rich=False, tag="lg")
+        ltext = ('@charset "ISO-8859-1";\n/* \u00a9 2009 M\u00fcller & S\u00f6hne \u2013 legacy sheet */\n'.replace("\u2013", "-")
+                 + '.lg-note::after { content: "caf\u00e9 \u00bb"; color: #777777; background-color: #ffffff }\n' + base_sheet.text)
+        ltext = ltext.encode("latin-1", "replace").decode("latin-1")
+        legacy = (os.path.join(prefix, rnd.choice(["legacy-latin1.css", os.path.join("sub", "zz-latin1.css")])), ltext)
+        lp = os.path.join(d, legacy[0])
+        os.makedirs(os.path.dirname(lp), exist_ok=True)
+        with open(lp, "wb") as f:
+            f.write(ltext.encode("latin-1"))
+        rec.count("legacy_encoding_sheets")
     before = clirun.snapshot(d)
     target_arg = (prefix or ".") if dir_mode else ("./" + os.path.join(prefix, single_name))
     if rnd.random() < 0.2:
         target_arg = os.path.join(d, target_arg)     # absolute path argument
         rec.count("absolute_path_arguments")
     args = c08.cli_args(target_arg, st)
-    case = {"files": {rel: s.text for rel, s in files.items()}, "settings": st, "dir_mode": dir_mode, "arg": target_arg}
+    case = {"files": {rel: s.text for rel, s in files.items()}, "settings": st, "dir_mode": dir_mode, "arg": target_arg, "linked": linked,
+            "legacy": list(legacy) if legacy else None}
     if prefix:
         rec.count("runs_from_parent_directory")
     events = None
@@ -231,6 +263,8 @@ def one_run(rec, lib, rnd, d, dir_mode, st, inproc):
     expected_new = {"cm_colors_report.html"}
     for rel in files:
         expected_new.add(rel[:-4] + "_cm.css")
+    if legacy:
+        expected_new.add(legacy[0][:-4] + "_cm.css")
     for rel, v in before.items():
         if after.get(rel) != v:
             rec.violation(f"input path {rel!r} was modified or removed by the run ({v[0]} -> {after.get(rel, ('missing',))[0]})", case)
@@ -272,6 +306,19 @@ def one_run(rec, lib, rnd, d, dir_mode, st, inproc):
             for ft in fs:
                 if ft in ("hack", "rootcolor", "important", "upper") or ft.startswith("nested"):
                     rec.count("feature:" + ft)
+    if legacy:
+        op = os.path.join(d, legacy[0][:-4] + "_cm.css")
+        if os.path.exists(op):
+            rec.count("legacy_encoding_output_judged")
+            raw = open(op, "rb").read()
+            try:
+                out_css = raw.decode("utf-8")
+            except UnicodeDecodeError:
+                out_css = raw.decode("latin-1")
+            mine = [c for c in cards if c["file"] == os.path.basename(legacy[0])]
+            judge_file(rec, legacy[1], out_css.replace("\r\n", "\n"), mine, st, os.path.basename(legacy[0]), err, dict(case, file=legacy[0]))
+        else:
+            rec.count("legacy_encoding_sheet_skipped_by_the_tool")
     if len(rec.samples) < 2 and cards:
         rec.sample({"settings": st, "dir_mode": dir_mode, "files": sorted(files), "created": sorted(set(after) - set(before)),
                     "write_events": [e[1] for e in (events or []) if e[0] == "open-for-write"][:6], "cards": len(cards), "verdict": "inputs byte-identical; canonical structure equal up to adjusted colour values"})
